@@ -11,6 +11,13 @@ target. For every declaration and target the enumerator initialisers are extract
 tokenizer, parsed, and evaluated *by the Lean evaluator* (`c08.eval`; a Python evaluator with the same rule is
 cross-checked); the observation `(constant, value | undefined)` is compared with the model (`c08.model`) and the
 specification (`c08.spec`) is evaluated on the implementation's values.
+Regeneration stream: the constants are what a build reads *from disk after the tool ran*. A sample of the programs is
+generated, then edited (`edit_decl`: two items change places, the list is reversed / rotated, two names change places
+under the modifiers, a name is replaced by one of the same length, an item is added) and generated again into the same
+output directories — by a new `API` object (a second CLI run) or by the same configured context — without `clean`;
+the constants found on disk afterwards are extracted, evaluated and judged by `c08.spec` against the *edited*
+declaration, exactly as for a fresh directory (keys `regenerate:…`). Most of these edits leave the rendered length
+of every file unchanged.
 Judges (validation of the extraction and of `EnumEval`, never the verdict): a model-derived `static_assert`
 translation unit compiled with g++ against the generated C++ headers (constants + the bit operators) and the
 transplanted C++/CLI enum bodies, random enumerator lists with references for `EnumEval` itself, the ObjC headers with
@@ -18,6 +25,7 @@ an NS_ENUM/NS_OPTIONS shim (clang), and `Enum.values()` via a reflection driver 
 """
 from __future__ import annotations
 
+import copy
 import itertools
 import json
 import random
@@ -209,7 +217,15 @@ def corpus_programs():
     f = Path(__file__).resolve().parent.parent.parent / "corpus" / "c08.json"
     if not f.exists():
         return []
-    return [{"decls": e["decls"], "styles": e.get("styles", {}), "corpus": e.get("name")} for e in json.loads(f.read_text())]
+    return [{"decls": e["decls"], "styles": e.get("styles", {}), "corpus": e.get("name")} for e in json.loads(f.read_text()) if "before" not in e]
+
+
+def corpus_regen():
+    """corpus entries of the regeneration class: `before` (first run) and `decls` (after the edit)"""
+    f = Path(__file__).resolve().parent.parent.parent / "corpus" / "c08.json"
+    if not f.exists():
+        return []
+    return [e for e in json.loads(f.read_text()) if "before" in e]
 
 
 # ---------------------------------------------------------------------------------------------
@@ -279,6 +295,139 @@ def model_request(decl, info):
     return {"kind": decl["kind"], "items": [{"all": it["all"], "none": it["none"]} for it in decl["items"]],
             "names": {t: names[t] for t in ("cpp", "objc", "cppcli", "java")},
             "objcType": info["type_names"]["objc"]}
+
+
+# ---------------------------------------------------------------------------------------------
+# regeneration after an edit
+# ---------------------------------------------------------------------------------------------
+
+EDITS = ["swap", "swap", "reverse", "rotate", "swap-names", "same-length-name", "add-item"]
+
+
+def edit_decl(r: random.Random, decl: dict) -> tuple[dict, str]:
+    """One edit of an enum / flags declaration as a user would make it between two runs of the generator. All but `add-item`
+    keep the multiset of rendered lines (hence the size of every generated file); all but `add-item` on the last position
+    change the value that at least one constant must have."""
+    d = copy.deepcopy(decl)
+    items = d["items"]
+    if len(items) < 2:
+        return d, "none"
+    kind = r.choice(EDITS)
+    i, j = sorted(r.sample(range(len(items)), 2))
+    if kind == "swap":
+        items[i], items[j] = items[j], items[i]
+    elif kind == "reverse":
+        items.reverse()
+    elif kind == "rotate":
+        items.append(items.pop(0))
+    elif kind == "swap-names":
+        # the modifiers, comments and deprecations stay where they are; the names change places
+        items[i]["name"], items[j]["name"] = items[j]["name"], items[i]["name"]
+    elif kind == "same-length-name":
+        used = {it["name"] for it in items}
+        k = r.randrange(len(items))
+        cands = [w for w in WORDS if w not in used and len(w) == len(items[k]["name"]) and w.count("_") == items[k]["name"].count("_")]
+        if not cands:
+            items[i], items[j] = items[j], items[i]
+            return d, "swap"
+        # the new name takes the first place: every constant that stays gets another value
+        it = items.pop(k)
+        it["name"] = r.choice(cands)
+        items.insert(0 if k else len(items), it)
+    else:
+        used = {it["name"] for it in items}
+        items.insert(r.randrange(len(items) + 1), {"name": r.choice([w for w in WORDS if w not in used]), "all": False, "none": False, "comment": None, "dep": None})
+    if [(x["name"], x["all"], x["none"]) for x in items] == [(x["name"], x["all"], x["none"]) for x in decl["items"]]:
+        return d, "none"
+    return d, kind
+
+
+def regen_worker(args):
+    """first run for `idl1`, then `idl2` written over the same file and a second run into the same output directories
+    (`same_context`: the configured context of the first run parses again; otherwise a new API object, as a second CLI
+    run). Returns the whole tree on disk afterwards and, per declaration of the second parse, the names the real
+    marshalling objects give (as `glue.generate_per_decl` does)."""
+    workdir, idl1, idl2, options, same_context = args
+    import os
+    import traceback
+    from pydjinni import API
+    from pydjinni.parser.ast import Enum, Flags
+    workdir = Path(workdir)
+    workdir.mkdir(parents=True, exist_ok=True)
+    idl = workdir / "m.djinni"
+    cwd = os.getcwd()
+    os.chdir(workdir)
+    try:
+        idl.write_text(idl1)
+        cctx = API().configure(options=options)
+        g1 = cctx.parse(idl)
+        for t in glue.TARGETS:
+            g1.generate(t)
+        idl.write_text(idl2)
+        if not same_context:
+            cctx = API().configure(options=options)
+        g2 = cctx.parse(idl)
+        errors = {}
+        for t in glue.TARGETS:
+            try:
+                g2.generate(t)
+            except Exception as e:
+                errors[t] = type(e).__name__ + ": " + str(e)[:160]
+        out_root = Path(options["generate"]["cpp"]["out"]).parent
+        tree = {sub: glue.snapshot(out_root / sub) for sub in ("cpp", "java", "jni", "objc", "objcpp", "cppcli")}
+        decls = []
+        for d in g2.defs:
+            info = {"name": str(d.name), "kind": type(d).__name__.lower(), "errors": dict(errors), "names": {}}
+            if isinstance(d, (Enum, Flags)):
+                items = d.items if isinstance(d, Enum) else d.flags
+                info["names"] = {"cpp": [str(i.cpp.name) for i in items], "java": [str(i.java.name) for i in items],
+                                 "objc": [str(i.objc.name) for i in items], "cppcli": [str(i.cppcli.name) for i in items]}
+                info["type_names"] = {"cpp": str(d.cpp.name), "java": str(d.java.name), "objc": str(d.objc.name),
+                                      "cppcli": str(d.cppcli.name), "jni": str(d.jni.name), "cpp_typename": str(d.cpp.typename)}
+            decls.append(info)
+        return {"parse": "ok", "decls": decls, "tree": tree}
+    except Exception:
+        return {"parse": "harness-error", "diags": [traceback.format_exc()[-1500:]], "decls": [], "tree": {}}
+    finally:
+        os.chdir(cwd)
+
+
+def regenerate_many(base: Path, jobs):
+    """jobs: [(idl1, idl2, options, same_context)] -> results shaped like `glue.generate_many`'s: every declaration sees
+    the files on disk that mention its type"""
+    import multiprocessing as mp
+    import pydjinni  # noqa: F401
+    args = [(str(base / f"r{i}"), a, b, o, sc) for i, (a, b, o, sc) in enumerate(jobs)]
+    if not args:
+        return []
+    with mp.get_context("fork").Pool(max(1, min(12, len(args)))) as pool:
+        results = pool.map(regen_worker, args, chunksize=1)
+    for res in results:
+        for info in res["decls"]:
+            tn = info.get("type_names", {})
+            key = {"cpp": tn.get("cpp"), "java": tn.get("java"), "jni": tn.get("jni"), "objc": tn.get("objc"), "objcpp": tn.get("objc"), "cppcli": tn.get("cppcli")}
+            info["files"] = {sub: {p: t for p, t in files.items() if key[sub] and key[sub] in t} for sub, files in res["tree"].items()}
+    return results
+
+
+def regen_programs(ctx, programs):
+    """a sample of the random programs with one edit per declaration: [(original, edited, same_context)]"""
+    r = random.Random(f"{ctx.seed}/c08/regen")
+    pool = [p for p in programs if not p.get("corpus") and not any(d["name"].startswith("h1") for d in p["decls"])]
+    r.shuffle(pool)
+    out = []
+    for e in corpus_regen():
+        for same in (False, True):
+            out.append(({"decls": e["before"], "styles": e.get("styles", {})},
+                        {"decls": e["decls"], "styles": e.get("styles", {}), "edits": e.get("edits", ["corpus"] * len(e["decls"])), "before": e["before"]}, same))
+    for k, p in enumerate(pool[: ctx.n(6, 24)]):
+        edited, kinds = [], []
+        for d in p["decls"]:
+            e, kind = edit_decl(r, d)
+            edited.append(e)
+            kinds.append(kind)
+        out.append((p, {"decls": edited, "styles": p["styles"], "edits": kinds, "before": p["decls"]}, k % 2 == 1))
+    return out
 
 
 # ---------------------------------------------------------------------------------------------
@@ -456,11 +605,21 @@ def shape_of(decl):
     return decl["kind"] + ":" + "".join("a" if i["all"] else "n" if i["none"] else "o" for i in decl["items"])
 
 
-def evaluate_programs(ctx, programs, judges=True):
+def evaluate_programs(ctx, programs, judges=True, regen=None):
+    """`regen`: [(original program, same_context)] aligned with `programs` (the edited ones): the observation is the tree
+    on disk after original -> edit -> second run; keys get the prefix `regenerate:`"""
     jobs = []
-    for pi, p in enumerate(programs):
-        jobs.append((render(p["decls"]), options_for(ctx.tmp / f"p{pi}" / "out", p["styles"])))
-    results = glue.generate_many(ctx.tmp, jobs)
+    tag = "regenerate:" if regen is not None else ""
+    if regen is None:
+        for pi, p in enumerate(programs):
+            jobs.append((render(p["decls"]), options_for(ctx.tmp / f"p{pi}" / "out", p["styles"])))
+        results = glue.generate_many(ctx.tmp, jobs)
+    else:
+        rjobs = []
+        for pi, (p, (orig, same)) in enumerate(zip(programs, regen)):
+            jobs.append((render(p["decls"]), None))
+            rjobs.append((render(orig["decls"]), render(p["decls"]), options_for(ctx.tmp / f"r{pi}" / "out", p["styles"]), same))
+        results = regenerate_many(ctx.tmp, rjobs)
     breaks, all_cases = [], []
     for pi, (p, res) in enumerate(zip(programs, results)):
         if res["parse"] != "ok" or len(res["decls"]) != len(p["decls"]):
@@ -489,8 +648,16 @@ def evaluate_programs(ctx, programs, judges=True):
             if "error" in m or "error" in s:
                 raise RuntimeError(f"driver error {m} {s}")
             sh = shape_of(decl)
-            ctx.count(key=(sh, bool(p["styles"])), nontrivial=len(decl["items"]) > 0,
-                      sample={"idl": render([decl]), "cpp": obs.get("cpp"), "java": obs.get("java")})
+            di = len(cases)
+            if regen is not None:
+                edit = p["edits"][di]
+                ctx.count(key=("regenerate", edit, sh, bool(p["styles"])), nontrivial=edit != "none",
+                          sample={"before": render([p["before"][di]]), "after": render([decl]), "edit": edit, "cpp": obs.get("cpp")})
+                ctx.stat("regenerate_edit_" + edit)
+                ctx.stat("regenerate_" + ("same_context" if regen[pi][1] else "new_api_object"))
+            else:
+                ctx.count(key=(sh, bool(p["styles"])), nontrivial=len(decl["items"]) > 0,
+                          sample={"idl": render([decl]), "cpp": obs.get("cpp"), "java": obs.get("java")})
             ctx.stat("kind_" + decl["kind"])
             ctx.stat("items_%d" % len(decl["items"]))
             if any(i["comment"] or i["dep"] is not None for i in decl["items"]):
@@ -517,8 +684,10 @@ def evaluate_programs(ctx, programs, judges=True):
                         key = f"flags:{s['clauses'][0]}"
                     if obs.get(f["target"]) is None and f["target"] in info["errors"]:
                         key = f"{decl['kind']}:{f['target']}:generation-failed"
-                    ctx.report(key, f"{f['target']}: {f['why']}",
-                               {"input": {"decls": [decl], "styles": p["styles"]}, "idl": render([decl]), "failure": f, "clauses": s["clauses"],
+                    extra = {} if regen is None else {"before": [p["before"][di]], "same_context": regen[pi][1]}
+                    ctx.report(tag + key, f"{f['target']}: {f['why']}" + ("" if regen is None else
+                               f" — in the files on disk after generating, editing the declaration ({p['edits'][di]}) and generating again into the same directory"),
+                               {"input": {"decls": [decl], "styles": p["styles"], **extra}, "idl": render([decl]), "failure": f, "clauses": s["clauses"],
                                 "impl": obs, "notes": {k: v for k, v in notes.items()}, "expected": m["spec"]})
             cases.append((decl, info, m, notes))
         all_cases.append(cases)
@@ -555,7 +724,8 @@ def evaluate_programs(ctx, programs, judges=True):
 def run(ctx):
     ctx.coverage["rule"] = ("enums with 0..8 items and flags with none/all in every position and multiplicity (exhaustive to length 4 quick / 5 thorough, "
                             "random to length 8), commented/deprecated items incl. every comment-syntax hazard text (backslash runs at line end, before uXXXX, comment closers) on non-final items, identifier styles; distinct = distinct (kind, none/all shape, styled?); "
-                            "non-trivial = at least one item; every declaration is observed in cpp, objc, cppcli, java and jni")
+                            "non-trivial = at least one item; every declaration is observed in cpp, objc, cppcli, java and jni; regeneration stream: distinct = distinct (edit, shape, styled?), "
+                            "non-trivial = the edit changes the item list")
     ctx.assumptions += [
         "at most 32 ordinary flags (1u << 32 is outside the model's unbounded naturals; generator uses <= 8 items)",
         "C++/CLI has no compiler here: its enum bodies are evaluated by the extractor and transplanted into a g++ translation unit",
@@ -564,6 +734,10 @@ def run(ctx):
     ]
     programs = corpus_programs() + build_programs(ctx)
     breaks = evaluate_programs(ctx, programs)
+    rp = regen_programs(ctx, programs)
+    breaks += [{**b, "stream": "regenerate"} for b in
+               evaluate_programs(ctx, [e for _, e, _ in rp], judges=False, regen=[(o, same) for o, _, same in rp])]
+    ctx.stats["regenerate_programs"] = len(rp)
     validate_enumeval(ctx)
     ctx.stats["correspondence_breaks"] = len(breaks)
     ctx.stats["programs"] = len(programs)
@@ -578,6 +752,10 @@ def run(ctx):
 def replay(ctx, body):
     inp = body["input"]
     before = len(ctx.violations) + sum(ctx.known_hits.values())
-    breaks = evaluate_programs(ctx, [{"decls": inp["decls"], "styles": inp.get("styles", {})}], judges=True)
+    if "before" in inp:
+        breaks = evaluate_programs(ctx, [{"decls": inp["decls"], "styles": inp.get("styles", {}), "edits": ["replay"], "before": inp["before"]}], judges=False,
+                                   regen=[({"decls": inp["before"], "styles": inp.get("styles", {})}, bool(inp.get("same_context")))])
+    else:
+        breaks = evaluate_programs(ctx, [{"decls": inp["decls"], "styles": inp.get("styles", {})}], judges=True)
     print(json.dumps({"breaks": breaks[:2], "violations": ctx.violations}, indent=1)[:3000])
     return len(ctx.violations) + sum(ctx.known_hits.values()) == before and not breaks
